@@ -1,6 +1,7 @@
 (* C02 — dropping the injector restores every faked function, for any install history. *)
 From Coq Require Import Permutation.
-From Inj Require Import Base Os OsProofs LifeProofs Injector Lifetime LifeThm Amd64Install Instances.
+From Inj Require Import Base X86 EncAmd64 Amd64Proofs Os OsProofs LifeProofs Injector Lifetime LifeThm Amd64Install Instances.
+From Inj Require EncArm64 Arm64Inst EncArm ArmInst.
 
 (* For EVERY script of operations (any number of installations, any targets with repetition, any
    kinds, refused installations, panics), every kernel, every well-formed encoder/allocator:
@@ -30,6 +31,29 @@ Theorem C02_instances : forall oc strict k, kernel_nonnull k ->
   enc_wf (enc_amd64 oc) /\ alloc_wf (alloc_jit strict) /\ alloc_nonnull (alloc_jit strict) k.
 Proof. intros oc strict k KN. exact (conj (enc_amd64_wf oc) (conj (alloc_jit_wf strict) (alloc_jit_nonnull strict k KN))). Qed.
 Print Assumptions C02_instances.
+(* ... and so are the AArch64 (Linux and macOS entry forms) and the 32-bit ARM encoders: restoration, frame, balance and
+   flush theorems hold for them as well *)
+Theorem C02_instances_arm : (forall macos hi, enc_wf (EncArm64.enc_arm64 macos hi)) /\ (forall ra rt rtrue rfalse, enc_wf (EncArm.enc_arm ra rt rtrue rfalse)).
+Proof. exact (conj Arm64Inst.enc_arm64_wf ArmInst.enc_arm_wf). Qed.
+Print Assumptions C02_instances_arm.
+
+(* while the injector lives the most recent installation for a function is the one in effect (x86-64): executing from
+   the entry reaches that installation's fake from ANY later state that agrees with the post-installation memory on the
+   entry slot and the trampoline — and a later installation on another function (disjoint slot, fresh trampoline) does *)
+Theorem C02_latest_wins_amd64 : forall oc allp al k s func fake s' g regs (m2:mem), alloc_wf al ->
+  install {| c_enc := enc_amd64 oc; c_allp := allp; c_alloc := al |} k s func (KExec fake) = (s', ROk g) ->
+  slot_ok func -> slot_ok (g_jit g) -> disjoint12 func (g_jit g) -> 0 <= fake < W ->
+  (forall x, (func <= x < func + 12 \/ g_jit g <= x < g_jit g + 12) -> m2 x = o_mem s' x) ->
+  exists n regs', (2 <= n <= 4)%nat /\ same_except_rax regs regs' /\
+    xrun n {| rip := func; xr := regs; xm := m2 |} = Some {| rip := fake; xr := regs'; xm := m2 |}.
+Proof. exact amd64_reach_stable. Qed.
+Print Assumptions C02_latest_wins_amd64.
+Theorem C02_later_install_preserves : forall oc allp al k s func2 kd s' g2 (lo hi:Z), alloc_wf al ->
+  install {| c_enc := enc_amd64 oc; c_allp := allp; c_alloc := al |} k s func2 kd = (s', ROk g2) ->
+  (hi <= func2 \/ func2 + 12 <= lo) -> (hi <= g_jit g2 \/ g_jit g2 + 12 <= lo) ->
+  forall x, lo <= x < hi -> o_mem s' x = o_mem s x.
+Proof. exact later_install_preserves. Qed.
+Print Assumptions C02_later_install_preserves.
 
 (* the pinned oldest-first restoration order is refuted: the same function faked twice *)
 Theorem C02_restore_refuted_fifo :
